@@ -16,7 +16,17 @@ from .. import inproc
 from .. import session
 
 PROP = "C07"
-HEADER = "import pytest\nfrom inline_snapshot import snapshot, Is\nfrom vp import *\n\n"
+HEADER = "import pytest\nfrom inline_snapshot import snapshot, Is\nfrom inline_snapshot.testing import Example\nfrom vp import *\n\n"
+# tests that use the public testing helper with snapshot() arguments: the inner example runs in a nested
+# inline-snapshot state, the snapshots passed to run_inline belong to the outer test
+INNER = '{"test_inner.py": "from inline_snapshot import snapshot\\ndef test_inner():\\n    assert %d == snapshot()\\n"}'
+TESTING_API = [
+    ("testing-api-wrong-categories", True, 'Example(' + INNER + ').run_inline(["--inline-snapshot=create"], reported_categories=snapshot(["fix"]))'),
+    ("testing-api-empty-categories", True, 'Example(' + INNER + ').run_inline(["--inline-snapshot=create"], reported_categories=snapshot())'),
+    ("testing-api-wrong-changed-files", True, 'Example(' + INNER + ').run_inline(["--inline-snapshot=create"], changed_files=snapshot({}))'),
+    ("testing-api-correct-categories", False, 'Example(' + INNER + ').run_inline(["--inline-snapshot=create"], reported_categories=snapshot(["create"]))'),
+    ("testing-api-wrong-categories-no-flags", True, 'Example(' + INNER + ').run_inline(reported_categories=snapshot(["fix"]))'),
+]
 GOOD_EXOTIC = [
     "assert DC(a=1, b={x}) == snapshot(DC(a=1, b=snapshot({x})))",
     "assert NT(a=1, b={x}) == snapshot(NT(a=1, b=snapshot({x})))",
@@ -137,6 +147,10 @@ def make_file(rng):
         k = 1000 + j
         tests.append(f"def test_{k}():\n    " + tmpl.format(x=rng.randint(10, 90)) + "\n")
         metas[f"test_{k}"] = {"bad": False, "kind": "good-nested", "pos": "-", "ops": ["eq"]}
+    for j, (kind, bad, body) in enumerate(TESTING_API):
+        k = 2000 + j
+        tests.append(f"def test_{k}():\n    " + (body % rng.randint(10, 90)) + "\n")
+        metas[f"test_{k}"] = {"bad": bad, "kind": kind, "pos": "-", "ops": ["eq"], "asserting": True}
     return HEADER + "\n".join(tests), metas
 
 
